@@ -7,6 +7,8 @@ use crate::oracle::{word_u128, word_u64, AHub, AMsg};
 use crate::world::*;
 use interchain_token_service::types::{HubMessage, Message};
 use proptest::prelude::*;
+#[allow(unused_imports)]
+use crate::prop_oneof;
 use serde::{Deserialize, Serialize};
 use soroban_sdk::{Env, String as SString};
 
@@ -186,8 +188,8 @@ fn amount() -> impl Strategy<Value = Amount> {
 
 fn inner() -> impl Strategy<Value = Inner> {
     prop_oneof![
-        (any::<u8>(), blob(), blob(), amount(), proptest::option::of(blob())).prop_map(|(token, src, dst, amount, data)| Inner::Transfer { token, src, dst, amount, data }),
-        (any::<u8>(), text(), text(), prop_oneof![Just(0u8), Just(7), Just(18), Just(255), any::<u8>()], proptest::option::of(blob()))
+        (any::<u8>(), blob(), blob(), amount(), crate::engine::opt_of(blob())).prop_map(|(token, src, dst, amount, data)| Inner::Transfer { token, src, dst, amount, data }),
+        (any::<u8>(), text(), text(), prop_oneof![Just(0u8), Just(7), Just(18), Just(255), any::<u8>()], crate::engine::opt_of(blob()))
             .prop_map(|(token, name, symbol, decimals, minter)| Inner::Deploy { token, name, symbol, decimals, minter }),
     ]
 }
@@ -385,7 +387,7 @@ impl Property for C10 {
         prop_oneof![
             3 => (hub(), any::<bool>()).prop_map(|(hub, empty_as_some)| Case::Msg { hub, empty_as_some }),
             1 => (inner(), any::<bool>()).prop_map(|(inner, empty_as_some)| Case::InnerMsg { inner, empty_as_some }),
-            2 => (prop_oneof![0u16..40, 32u16..700], any::<u64>(), proptest::option::of(0u8..6)).prop_map(|(len, seed, t)| Case::Random { len, seed, first_word_tag: t }),
+            2 => (prop_oneof![0u16..40, 32u16..700], any::<u64>(), crate::engine::opt_of(0u8..6)).prop_map(|(len, seed, t)| Case::Random { len, seed, first_word_tag: t }),
             6 => (hub(), any::<bool>(), mutation(), prop_oneof![2 => Just(Mutation::None), 1 => mutation()]).prop_map(|(hub, inner_only, m1, m2)| Case::Mutated { hub, inner_only, m1, m2 }),
             3 => (hub(), mutation(), prop_oneof![2 => Just(Mutation::None), 1 => mutation()], prop_oneof![3 => Just(None), 1 => (0u8..70, any::<u64>()).prop_map(Some)])
                 .prop_map(|(hub, m1, m2, short)| Case::Nested { hub, m1, m2, short }),
